@@ -231,8 +231,14 @@ def main():
                         nd = H.dim
                         Bm = numpy.random.RandomState(nd).randn(nd, nd)
                         A = qr.qm.SelfAdjointOperator(data=(Bm + Bm.T) / 2)
+                        # (and a genuinely complex Hermitian one: its
+                        # eigenvector matrix is unitary, not orthogonal)
+                        Bi = numpy.random.RandomState(nd + 17).randn(nd, nd)
+                        Ac = qr.qm.SelfAdjointOperator(
+                            data=(Bm + Bm.T) / 2 + 1j * (Bi - Bi.T) / 2)
                         for cname, ops in (("H", [H]), ("A", [A]),
-                                           ("A>H", [A, H]), ("H>A", [H, A])):
+                                           ("A>H", [A, H]), ("H>A", [H, A]),
+                                           ("Ac", [Ac]), ("H>Ac", [H, Ac])):
                             import contextlib
                             with contextlib.ExitStack() as stack:
                                 for op in ops:
